@@ -122,7 +122,8 @@ def check(ctx):
     repo = ctx.repo
     for r, t in (("SIB-9", "is_na / na_dtype / na_value agree per dtype kind with each other and with the statement"),
                  ("SIB-pred", "NA substitution predicate == type-inference ignore predicate; inference decision list"),
-                 ("NA-flow", "consumers obtain missing positions only through is_na")):
+                 ("NA-flow", "consumers obtain missing positions only through is_na"),
+                 ("NA-src", "the value substituted for None/NaN: na_value of the known dtype, else guessed from the element types")):
         ctx.rule(r, t)
     ctx.trust("predicate/kind table in sa/props/C10.py (NumPy scalar hierarchy)")
     isna = repo.fn(f"{VEC}.is_na")
@@ -230,6 +231,42 @@ def check(ctx):
         norm(c.args[0]) == "seq" for _, c in calls_in(std) if isinstance(c.func, ast.Attribute) and c.func.attr == "_np_array")
     ctx.ob("SIB-pred", std, "the substituted sequence is the one converted", comp[0], ok,
            "np.array receives the sequence with missing values replaced" if ok else "the converted sequence is not the substituted one", nontrivial=False)
+    # where the substituted value comes from
+    from ..dataflow import defs_reaching as _defs
+    subst = comp[0].elt.body
+    n_src = 0
+    if isinstance(subst, ast.Name):
+        for d in _defs(std, subst.id, comp[0]):
+            if d.value is None:
+                continue
+            n_src += 1
+            v = d.value
+            at = d.node.ast if d.node is not None else comp[0]
+            dfacts = facts_at(std, at)
+            explicit = any((k == "T" and t.endswith("is not None") and not t.startswith("not ")) or
+                           (k == "F" and t.endswith("is None")) for k, t in dfacts)
+            if isinstance(v, ast.Call) and isinstance(v.func, ast.Attribute) and v.func.attr == "_std_to_np_na_value":
+                arg = v.args[0] if v.args else None
+                srcs = [arg]
+                if isinstance(arg, ast.Name):
+                    srcs = [x.value for x in _defs(std, arg.id, at) if x.value is not None]
+                from_types = bool(srcs) and all(isinstance(x, ast.Call) and repo.dotted(std, x.func) == "dataiter.util.unique_types"
+                                                for x in srcs)
+                okv = from_types and not explicit
+                why = ("the missing value is guessed from the element types found by util.unique_types" if okv else
+                       f"_std_to_np_na_value decides by the Python types of the elements, but it is given {norm(arg) if arg is not None else '?'}"
+                       + (" on the path where the dtype is known" if explicit else "") +
+                       ": NumPy scalar types of a dtype are not in its decision list (np.str_ is not str, timedelta64 counts as integer), "
+                       "so fixed-width strings store the text 'None' and timedeltas become float")
+            else:
+                t = norm(v)
+                okv = t.endswith(".na_value") and "dtype" in t
+                why = ("the missing value is the na_value of a vector of the known dtype" if okv else
+                       f"with a known dtype the substituted value is {t}, not the na_value of that dtype: is_na / tolist / "
+                       f"drop_na then disagree with construction about what is missing")
+            ctx.ob("NA-src", std, f"{subst.id} = {norm(v)[:80]}", at, okv, why,
+                   clause="maps None and NaN to the missing value of the inferred type ... with and without an explicit dtype")
+    ctx.count("definitions of the substituted missing value", n_src, 2)
     nvf = repo.fn(f"{VEC}._std_to_np_na_value")
     seq = []
     for s in nvf.node.body:
